@@ -412,20 +412,27 @@ def oracle_insert(ctx, h, k, v, claims, pre_clock, with_memory=False):
                     else:
                         el = to_real(clock[-1] - e.birth) / NS; T = to_real(cfg.ttl)
                     x = 1 - z3.If(el / T < 1, el / T, 1)
-                    return z3.If(x > 0, x, 0)
+                    # ttl = 0: the documented fraction elapsed/ttl is saturated at 1 (0/0 and x/0 alike), i.e. no remaining life
+                    return z3.If(T == 0, 0, z3.If(x > 0, x, 0))
                 ordered = [dict(id=i, hits=hitsof[i], frac=frac(i)) for i in cands]
                 sc = dict(zip(cands, score_terms(cfg, ordered, ctx=ctx)))
                 surv = [x for x in cands if x not in removed]
-                for rmd in removed:
-                    if rmd not in sc: continue
-                    if with_memory and cfg.has_mem and rmd == newid:
-                        continue
-                    for c in surv:
-                        # ranks shift when earlier victims leave; the comparison on the initial ranks is exact for one victim
-                        if len([x for x in removed if x in sc]) == 1:
-                            add('C08', 'the evicted entry has the lowest documented score (ties arbitrary)', simp(sc[rmd] <= sc[c]))
-                        else:
-                            add('C08', 'an evicted entry is never strictly more popular (hits) than a survivor with an older position', True)
+                victims = [x for x in removed if x in sc and not (with_memory and cfg.has_mem and x == newid)]
+                if len(victims) == 1:
+                    for c in surv: add('C08', 'the evicted entry has the lowest documented score (ties arbitrary)', simp(sc[victims[0]] <= sc[c]))
+                elif 1 < len(victims) <= 3:
+                    # several victims of one store (memory pressure): ranks shift when earlier victims leave, so the scores are
+                    # recomputed over the entries still present at each removal; some removal order must make every victim minimal
+                    import itertools
+                    alts = []
+                    for perm in itertools.permutations(victims):
+                        present = list(cands); conj = []
+                        for r_ in perm:
+                            sck = dict(zip(present, score_terms(cfg, [dict(id=i, hits=hitsof[i], frac=frac(i)) for i in present], ctx=ctx)))
+                            conj += [simp(sck[r_] <= sck[c]) for c in present if c != r_]
+                            present.remove(r_)
+                        alts.append(b_and(*conj))
+                    add('C08', 'every victim of a store had the lowest documented score among the entries present when it was removed (in some removal order)', b_or(*alts))
             # Random: any victim is fine
         # order of the survivors
         bounded = cfg.has_limit or cfg.has_mem
